@@ -20,6 +20,7 @@ regression theorems (model = spec on them, inputs kept in corpus/C08):
 import KinModel.Lemmas.C08
 import KinModel.ResponseReg
 import KinModel.Gen.RespConsts
+import KinModel.ResponseFlow
 namespace KinModel.Response
 
 /-! ### Selection of the response entry -/
@@ -712,6 +713,37 @@ theorem writeOnly_null_rejected_in_body :
               (.val (.obj (.cons "pw" .null .nil)))
     Excluded id {} i = false ∧ (validateResponse id genReg {} i).err = some .bodySchema ∧ acceptB id genReg {} i = false := by
   decide
+
+/-! ### The control flow of ValidateResponse / validateResponseHeader, tied to the source (table C08Flow) -/
+
+open KinModel.Gen in
+/-- every top-level statement of the two functions was recognised by the translator -/
+theorem c08flow_recognised :
+    (c08ValidateResponse ++ c08ValidateHeader).all (fun r => match r with | .unrecognised _ => false | _ => true) = true := by
+  decide
+
+/-- the regenerated statement table of `ValidateResponse` IS the program the model was transcribed from
+(statement groups, their order, the skip lists, the conditions of the empty-map shortcut, which option appends which
+validation option, VisitAsResponse on the header loop and on the body visit, the reasons) -/
+theorem c08flow_resp_is_expected : KinModel.Gen.c08ValidateResponse = expectedRespProgram := by decide
+
+/-- the regenerated statement table of `validateResponseHeader` IS the program `checkHeader` was transcribed from -/
+theorem c08flow_hdr_is_expected : KinModel.Gen.c08ValidateHeader = expectedHdrProgram := by decide
+
+/-- **`checkHeader` is the meaning of the source's statement table** of validateResponseHeader, for every header
+definition and every header set. -/
+theorem checkHeader_is_table_program (canon : String → String) (woOff : Bool) (hdrs : List (String × Option String)) (h : Hdr) :
+    runHdr canon true woOff hdrs h KinModel.Gen.c08ValidateHeader .start = checkHeader canon woOff hdrs h := by
+  rw [c08flow_hdr_is_expected]; exact runHdr_expected canon woOff hdrs h
+
+/-- dropping `VisitAsResponse()` from the header loop changes the verdict (the interpreter is sensitive to the row's
+parameter): a required write-only property absent from an object header -/
+example :
+    let s : Sch := .mk { ty := .object, required := ["pw"] } (.cons "pw" (.mk { ty := .string, writeOnly := true } .nil .none .none) .nil) .none .none
+    let h : Hdr := { name := "X-O", required := true, schema := some s }
+    runHdr id true false [("X-O", some "a,b")] h expectedHdrProgram .start = none ∧
+    runHdr id false false [("X-O", some "a,b")] h expectedHdrProgram .start = some (.hdrSchema "X-O") := by decide
+
 
 /-! ### Non-vacuity: inputs outside every exclusion class on which both directions are exercised -/
 
